@@ -145,7 +145,7 @@ def run(tier):
     # 1. exhaustive model checking + oracle self-test
     cfgs = ["MC_Freeze_quick.cfg"] if tier == "quick" else ["MC_Freeze_quick.cfg", "MC_Freeze_thorough.cfg"]
     for cfg in cfgs:
-        res = V.tlc(PID, "MC_Freeze", cfg, workers=8, timeout=1200, xmx="8g")
+        res = V.tlc(PID, "MC_Freeze", cfg, workers=4, timeout=1200, xmx="8g")
         if res["violated"]:
             c.violation("model/" + res["violated"], "Freeze.tla violates %s in %s" % (res["violated"], cfg),
                         {"kind": "model", "cfg": cfg, "tlc_tail": res["out"][-3000:]})
@@ -163,7 +163,7 @@ def run(tier):
     #     block while / between freeze passes) must not disturb the append
     probe(c)
     # 2./3. scenarios on the real node
-    n_scen, max_points, par = (5, 7, 5) if tier == "quick" else (24, 1000, 6)
+    n_scen, max_points, par = (5, 7, 4) if tier == "quick" else (24, 1000, 4)
     seeds = [V.seed() * 1000 + i for i in range(n_scen)]
     V.build_harness("c10")
     with ThreadPoolExecutor(max_workers=par) as ex:
@@ -216,7 +216,7 @@ def replay(path, tier):
     if p["kind"] == "probe":
         probe(c)
     elif p["kind"] == "model":
-        res = V.tlc(PID, "MC_Freeze", p["cfg"], workers=8)
+        res = V.tlc(PID, "MC_Freeze", p["cfg"], workers=4)
         if res["violated"]:
             c.violation("model/" + res["violated"], "model violation", p)
     else:
